@@ -254,7 +254,7 @@ PROPS = {
     },
     "C06": {
         "lean_modules": ['HotstuffModel.Properties.C06'],
-        "engines": [{'name': 'netsim'}, {'name': 'timer'}],
+        "engines": [{'name': 'netsim'}, {'name': 'timer'}, {'name': 'proposerwait'}],
         "level": "proof",
         "level_text": "PARTIAL: machine-checked enabling lemmas for each progress step + whole-system simulation of the liveness claim on the real code (the 'eventually' itself is not a theorem).",
         "trusted_base": TB_COMMON + [
@@ -262,7 +262,7 @@ PROPS = {
             "netsim engine: real nodes (real node.rs wiring) on the in-memory simnet transport under tokio's paused virtual clock; harness proxies model links (latency >= 5 ms, cuts hang connections, no loss on healthy links)",
         ],
         "assumptions": ['the temporal claim is NOT proved (no fairness / real-time model of timers and TCP back-off); it is explored by simulation', 'virtual time: timers fire in deadline order; link latencies after stabilisation are 1-20 ms against a 1000 ms round timeout'],
-        "explanation": 'Proved for every state/input: the timer always yields a timeout for the current round; a quorum of verified timeouts forms and broadcasts a TC and advances the round; a leader entering its round via a TC requests exactly one proposal; voting is enabled for a safe block of the current round; TCs/QCs synchronise views. Explored: netsim runs 4-7 REAL nodes with every kind of <= f crash set, random crash instants and random pre-stabilisation delays/cuts; after stabilisation every live node must commit in each window of (4(f+1)+6) timeouts; commit logs must agree. Also proved: L7/L9 the good case through the whole of handle_proposal in every reachable state (a verified leader proposal on stored ancestors is voted and commits its grandparent when rounds are consecutive), L8/L10 leader rotation versus any m faulty authorities (at most m faulty-led rounds in a row; with n >= 3m+1 three consecutive non-faulty leaders in every window of n rounds). The netsim engine also plays a directed partial-broadcast crash. L11 (timer_fires_exactly_duration_after_last_reset): the round timer (Model/Timer.lean, deadline rule Gen.timerDeadline regenerated from consensus/src/timer.rs, plus a shape check that Core resets it on start, on entering a round and after a local timeout) is ready exactly from timeout_delay after its LAST reset on; the engine timer runs the real Timer under the virtual clock against that model and an independent oracle. N1 (lost_tc_leaves_nodes_stuck, Proofs/PacemakerStuck): why the premise "not lost" is needed — if the single broadcast of TC(r) is lost after part of the nodes used it and neither part holds a quorum, no sequence of timer expiries and timeouts ever moves a node (proved for every such sequence; it is what the simulation met on the real code with lossy cuts before stabilisation, DESIGN 0.7), so before stabilisation the simulation delays messages but never loses them.',
+        "explanation": 'Proved for every state/input: the timer always yields a timeout for the current round; a quorum of verified timeouts forms and broadcasts a TC and advances the round; a leader entering its round via a TC requests exactly one proposal; voting is enabled for a safe block of the current round; TCs/QCs synchronise views. Explored: netsim runs 4-7 REAL nodes with every kind of <= f crash set, random crash instants and random pre-stabilisation delays/cuts; after stabilisation every live node must commit in each window of (4(f+1)+6) timeouts; commit logs must agree. Also proved: L7/L9 the good case through the whole of handle_proposal in every reachable state (a verified leader proposal on stored ancestors is voted and commits its grandparent when rounds are consecutive), L8/L10 leader rotation versus any m faulty authorities (at most m faulty-led rounds in a row; with n >= 3m+1 three consecutive non-faulty leaders in every window of n rounds). The netsim engine also plays a directed partial-broadcast crash. L11 (timer_fires_exactly_duration_after_last_reset): the round timer (Model/Timer.lean, deadline rule Gen.timerDeadline regenerated from consensus/src/timer.rs, plus a shape check that Core resets it on start, on entering a round and after a local timeout) is ready exactly from timeout_delay after its LAST reset on; the engine timer runs the real Timer under the virtual clock against that model and an independent oracle. L12 (proposer_wait_ends_with_honest_acks): the wait of the proposer for acknowledgements after a broadcast (Model/ProposerWait.lean, guard Gen.proposerQuorum regenerated from consensus/src/proposer.rs with its initialisation and accumulation shape-checked) ends as soon as the non-faulty peers have acknowledged, at the first completion that reaches the quorum — never blocked by crashed peers; the engine proposerwait runs the real Proposer with every peer on simnet (Make, a second Make queued, ACKs released one at a time, some peers never answering) against that model and an independent stake oracle. N1 (lost_tc_leaves_nodes_stuck, Proofs/PacemakerStuck): why the premise "not lost" is needed — if the single broadcast of TC(r) is lost after part of the nodes used it and neither part holds a quorum, no sequence of timer expiries and timeouts ever moves a node (proved for every such sequence; it is what the simulation met on the real code with lossy cuts before stabilisation, DESIGN 0.7), so before stabilisation the simulation delays messages but never loses them.',
     },
     "C07": {
         "lean_modules": ['HotstuffModel.Properties.C07'],
